@@ -208,6 +208,10 @@ def leaf_xsd(n):
         return '<xs:element ref="t:%s"%s/>' % (label[1:], occ)
     if ':' in label:
         name, typ = label.split(':')
+        if typ.startswith('anon'):
+            base = {'anon1': 'xs:string', 'anon2': 'xs:int', 'anon3': 'xs:string'}[typ]
+            return ('<xs:element name="%s"%s><xs:simpleType><xs:restriction base="%s"/></xs:simpleType></xs:element>'
+                    % (name, occ, base))
         return '<xs:element name="%s" type="xs:%s"%s/>' % (name, typ, occ)
     return None
 
